@@ -52,7 +52,7 @@ def cases(tier, seed):
         recs.append((['iso', ['hub', ['er', n, .5, False, int(rs.randint(1 << 30))], 1], 1], False))
         recs.append((['named', 'lollipop', int(rs.randint(3, 6)), int(rs.randint(1, 4))], False))
     for i, (g, d) in enumerate(recs):
-        out.append({'g': g, 'directed': d, 'ws': seed * 100 + i, 'schemes': ['bin', 'real', 'dyad']})
+        out.append({'g': g, 'directed': d, 'ws': seed * 100 + i, 'schemes': ['bin', 'real', 'dyad', 'logu']})
     return out
 
 
@@ -109,7 +109,9 @@ def run(case, bct, REC):
                 if ok and np.isfinite(Tb):
                     REC.check(PROP, 'transitivity_bu', 'value', close(T, Tb, rtol=1e-9, atol=1e-12), dict(det, got=T, expected=Tb))
             # ---- signed variant
-            if sc != 'bin':
+            if sc == 'logu':   # signed weights whose magnitudes span 12 orders
+                S = W * np.sign(G.weigh(A, 'signed', case['ws'] + 1, symmetric=True))
+            elif sc != 'bin':
                 S = G.weigh(A, 'signed', case['ws'] + 1, symmetric=True)
                 S = np.clip(S / 3.0, -1, 1)
             else:
